@@ -35,6 +35,39 @@ def load_findings():
     return open_f
 
 
+def _sig_match(pattern, sig):
+    """exact match, or field-wise match where a pattern field `*` matches any value of that field (used only when the
+    failing call site is shared by every class in that position; the finding's text names the call site)"""
+    if pattern == sig:
+        return True
+    pf, sf = pattern.split("|"), sig.split("|")
+    return len(pf) == len(sf) and all(p == "*" or p == s for p, s in zip(pf, sf))
+
+
+def failure_kind(mm):
+    """coarse, stable description of how a step failed: part of every finding signature"""
+    import re
+    msg = mm.get("msg", "")
+    if mm.get("kind") == "raised":
+        m = re.search(r"raised (\w+):.* at (\S+?):\d+ \((\w+)\)", msg)
+        if m:
+            return "raised:%s@%s:%s" % (m.group(1), m.group(2).split("/")[-1], m.group(3))
+        m = re.search(r"raised (\w+)", msg)
+        return "raised:%s" % (m.group(1) if m else "?")
+    if mm.get("kind") == "noraise":
+        return "no-exception"
+    if "densifying the result raised" in msg:
+        m = re.search(r"raised (\w+):.* at (\S+?):\d+ \((\w+)\)", msg)
+        return "densify-raised:%s@%s:%s" % ((m.group(1), m.group(2).split("/")[-1], m.group(3)) if m else ("?", "?", "?"))
+    if "shape" in msg and "expected" in msg and "value mismatch" not in msg:
+        return "wrong-shape"
+    if "dtype" in msg and "value mismatch" not in msg:
+        return "wrong-dtype"
+    if "non-finite" in msg:
+        return "non-finite"
+    return "wrong-value"
+
+
 class Result:
     def __init__(self, prop, tier, seed, level="model_checking"):
         self.prop, self.tier, self.seed, self.level = prop, tier, seed, level
@@ -69,13 +102,17 @@ class Result:
         printed_known = set()
         new = {}
         for v in self.violations:
-            hit = next((f for f in known if f["signature"] == v["signature"]), None)
+            hit = next((f for f in known if _sig_match(f["signature"], v["signature"])), None)
             if hit:
                 if hit["signature"] not in printed_known:
                     printed_known.add(hit["signature"])
                     print("KNOWN-FINDING: property=%s %s [%s]" % (self.prop, hit["what"], hit["signature"]))
             else:
                 new.setdefault(v["signature"], v)
+        if os.environ.get("VERIF_PROPOSE"):
+            with open(os.path.join(WORK, "proposed_findings_%s.txt" % self.prop), "w") as f:
+                for sig, v in sorted(new.items()):
+                    f.write("finding: property=%s signature=%s :: %s\n" % (self.prop, sig, v["msg"][:300]))
         for sig, v in sorted(new.items()):
             print("VIOLATION property=%s replay=%s" % (self.prop, v["replay"]))
             print("  signature: %s" % sig)
